@@ -286,7 +286,40 @@ func evalCase(r *mon.Run, d account.AccountDatabase, c Case, ci int, stats bool)
 				}
 			}
 		}
-		f.raw = f.oracle + "|" + f.kind + "|" + cls + "|" + famList(fams)
+		f.raw = f.oracle + "|" + f.kind + "|" + cls + "|" + groupList(fams)
+		if f.oracle == "twin" || f.oracle == "twin-nodiff" || f.oracle == "twin-panic" {
+			// Triage (one more twin execution): does the difference survive when every known
+			// ingredient (see oracle.go) is removed from both executions? Those findings form
+			// their own raw classes, so that they are never crowded out of the reduction
+			// budget by the frequent ingredient-dependent ones.
+			hh, ff := f.hist, c.Final
+			for _, ing := range ingredients {
+				hh, ff, _ = ing.apply(hh, ff)
+			}
+			persists := true
+			func() {
+				defer func() { recover() }()
+				th, valid := twinOf(hh, f.label)
+				if p, _ := firstOutOfScopePanic(d, hh); !valid || p >= 0 {
+					return
+				}
+				res := twinCheck(d, hh, th, ff)
+				persists = res.mismatch()
+				if f.oracle == "twin" && res.twinPanic == "" {
+					persists = false
+					for _, df := range res.diffs {
+						if df.Addr == f.addr {
+							persists = true
+						}
+					}
+				}
+			}()
+			r.Count("twin_triage_executions", 1)
+			if persists {
+				f.raw = "ingredient-free|" + f.raw
+				r.Count("twin_findings_persisting_without_known_ingredients", 1)
+			}
+		}
 		f.histLen, f.hist = len(f.hist), nil // phase 2 regenerates the case (memory)
 	}
 	return out
@@ -621,7 +654,11 @@ func runCases(r *mon.Run, n int, get func(i int) Case, workers int, perClass int
 	taken := map[string]int{}
 	var todo []rawFinding
 	for _, f := range all {
-		if taken[f.raw] < perClass {
+		lim := perClass
+		if strings.HasPrefix(f.raw, "ingredient-free|") {
+			lim = 4 * perClass
+		}
+		if taken[f.raw] < lim {
 			taken[f.raw]++
 			todo = append(todo, f)
 		}
@@ -634,7 +671,7 @@ func runCases(r *mon.Run, n int, get func(i int) Case, workers int, perClass int
 			defer wg.Done()
 			d, used := newDB(), 0
 			for i := range ch2 {
-				if used++; used%20 == 0 {
+				if used++; used%100 == 0 {
 					d = newDB()
 				}
 				f := todo[i]
@@ -674,7 +711,7 @@ func childMain(args []string) {
 			r.Sample(map[string]interface{}{"mode": mode, "index": c.Index, "final": c.Final, "history": trim(describe(c.Hist))})
 		}
 	}
-	runCases(r, total, get, workers, r.Pick(2, 6), 800)
+	runCases(r, total, get, workers, r.Pick(2, 8), 800)
 	r.Count("mode_"+mode+"_histories", int64(total))
 	cleanupScratch()
 	r.Finish(mon.Coverage{Evaluations: int64(total)})
